@@ -111,6 +111,8 @@ type ManifestOpt struct {
 	// LayerTitles, when set, gives each layer descriptor (by position) an org.opencontainers.image.title
 	// annotation ("" = none): the file name a file store materialises the layer under.
 	LayerTitles []string
+	// EmbedData (Index only): every member descriptor carries the member's bytes in its data field.
+	EmbedData bool
 }
 
 func (d *DAG) descs(ids []int) []ocispec.Descriptor {
@@ -173,6 +175,11 @@ func (d *DAG) Index(name string, manifests []int, o ManifestOpt) int {
 	}
 	for i, p := range o.Platforms {
 		x.Manifests[i].Platform = p
+	}
+	if o.EmbedData {
+		for i, id := range manifests {
+			x.Manifests[i].Data = d.Nodes[id].Bytes
+		}
 	}
 	kind, mt := KIndex, ocispec.MediaTypeImageIndex
 	if o.Docker {
@@ -434,6 +441,17 @@ func Extra(name string) *DAG {
 		m := d.Manifest("M", c, []int{l}, no())
 		i1 := d.Index("I1", []int{m}, no())
 		d.Index("I2", []int{i1}, no())
+	case "embedded-data": // an index whose member descriptor embeds the member's bytes
+		c := d.Blob("C", MTConfig, "{}")
+		l := d.Blob("L", MTLayer, "l")
+		m := d.Manifest("M", c, []int{l}, no())
+		d.Index("I", []int{m}, ManifestOpt{Subject: -1, EmbedData: true})
+	case "index-and-referrer": // a manifest that is a member of an index and the subject of a referrer
+		c := d.Blob("C", MTConfig, "{}")
+		l := d.Blob("L", MTLayer, "l")
+		m := d.Manifest("M", c, []int{l}, no())
+		d.Manifest("R", c, nil, ManifestOpt{Subject: m, ArtifactType: "application/vnd.test.sig"})
+		d.Index("I", []int{m}, no())
 	case "many-referrers": // more pending predecessors at once than any small shape has (work-list growth)
 		c := d.Blob("C", MTConfig, "{}")
 		l := d.Blob("L", MTLayer, "l")
